@@ -3,7 +3,6 @@ package main
 import (
 	"fmt"
 	"go/token"
-	"sort"
 	"strings"
 
 	"golang.org/x/tools/go/ssa"
@@ -131,32 +130,59 @@ func runC20(c *Ctx, r *Report, tier string) {
 			}
 		}
 		r.Check(okExit, "MINIMUM", cn, "visits every candidate", c.ipos(cl.Header.Instrs[0]), "the loop is left only by exhausting the range", "early exit from the candidate loop")
-		// the update: reached only via (best < 0) or (l < mindist)
-		var upd *ssa.BasicBlock
-		var minPhi *ssa.Phi
+		// the best-so-far distance: a loop-carried value whose in-loop origins are levenshtein results,
+		// each selected only on a strict improvement (or while there is no candidate yet)
+		improve := func(l Lit) bool {
+			if !l.Pos || !strings.HasPrefix(l.Term, "lt(") {
+				return false
+			}
+			return strings.HasPrefix(l.Term, "lt(call:levenshtein(P0, idx(P1, ") && strings.Contains(l.Term, "), phi{") || strings.HasPrefix(l.Term, "lt(phi{") && strings.HasSuffix(l.Term, ", 0)")
+		}
+		nUpd := 0
+		firstFromInit := false
 		for _, in := range cl.Header.Instrs {
-			if p, ok := in.(*ssa.Phi); ok {
-				for i, e := range p.Edges {
-					if call, isCall := c.resolve(e).(*ssa.Call); isCall && c.calleeName(call.Common()) == "levenshtein" && cl.Blocks[p.Block().Preds[i]] {
-						upd = p.Block().Preds[i]
-						minPhi = p
-					}
+			p, ok := in.(*ssa.Phi)
+			if !ok {
+				break
+			}
+			if relType(c, p.Type()) != "int" {
+				continue
+			}
+			for _, o := range c.originsOf(p, in) {
+				call, isCall := o.Val.(*ssa.Call)
+				if !isCall || c.calleeName(call.Common()) != "levenshtein" {
+					continue
 				}
+				if !cl.Blocks[call.Block()] {
+					// initial value computed before the loop: the first candidate
+					if o.Term == "call:levenshtein(P0, idx(P1, 0))" {
+						firstFromInit = true
+					}
+					continue
+				}
+				nUpd++
+				r.Check(c.reqAt(cc, o, improve), "MINIMUM", cn, "update only on strict improvement (or first candidate)", c.ipos(o.At), "REQ(best < 0 ∨ distance < best distance), strict", "the best candidate can be replaced without a strict improvement")
 			}
 		}
-		if upd == nil {
+		if nUpd == 0 {
 			r.Fail("MINIMUM", cn, "best-so-far update", "", "no loop-carried minimum updated with levenshtein's result found")
-		} else {
-			first := upd.Instrs[0]
-			_, req := c.Requires(cc, isInstr(first), func(l Lit) bool {
-				if !l.Pos || !strings.HasPrefix(l.Term, "lt(") {
-					return false
-				}
-				return strings.HasPrefix(l.Term, "lt(call:levenshtein(P0, idx(P1, ") && strings.Contains(l.Term, "), phi{") || strings.HasPrefix(l.Term, "lt(phi{") && strings.HasSuffix(l.Term, ", 0)")
-			}, nil)
-			r.Check(req, "MINIMUM", cn, "update only on strict improvement (or first candidate)", c.ipos(first), "REQ(best < 0 ∨ distance < best distance), strict", "the best candidate can be replaced without a strict improvement")
-			_ = minPhi
 		}
+		// every candidate is examined: the index runs over all of choices (from 0, or from 1 when
+		// the first candidate initialises the minimum)
+		okIdx := false
+		for _, in := range cl.Header.Instrs {
+			p, ok := in.(*ssa.Phi)
+			if !ok {
+				break
+			}
+			switch c.term(p) {
+			case "phi{(phi↺ + 1) | -1}", "phi{(phi↺ + 1) | 0}":
+				okIdx = true
+			case "phi{(phi↺ + 1) | 1}":
+				okIdx = firstFromInit
+			}
+		}
+		r.Check(okIdx, "MINIMUM", cn, "candidate index covers all choices", c.ipos(cl.Header.Instrs[0]), "the index starts at the first candidate not yet examined and advances by one", "the candidate loop does not start at the first unexamined candidate")
 		for _, ret := range returnsOf(cc) {
 			t := c.term(ret.Results[0])
 			if t == `""` {
@@ -281,7 +307,7 @@ func (c *Ctx) dpRules(r *Report, lv *ssa.Function) {
 		}
 		return s
 	}
-	var interior []string
+	var interior []*ssa.Store
 	borderRow, borderCol := false, false
 	for _, b := range c.blocks(lv) {
 		for _, in := range b.Instrs {
@@ -319,44 +345,46 @@ func (c *Ctx) dpRules(r *Report, lv *ssa.Function) {
 				r.Fail("DP", ln, "interior store target", c.ipos(st), fmt.Sprintf("a cell other than (i+1, j+1) is written: row %s col %s", c.term(row), c.term(col)))
 				continue
 			}
-			// guards
-			var guards []string
-			for _, f := range c.domFacts(b) {
-				if f.Alts != nil {
-					continue
-				}
-				bo, isB := c.resolve(f.Cond).(*ssa.BinOp)
-				if !isB {
-					continue
-				}
-				switch bo.Op {
-				case token.EQL:
-					if strings.HasPrefix(c.term(bo.X), "idx("+S) && strings.HasPrefix(c.term(bo.Y), "idx("+T) {
-						if f.Pos {
-							guards = append(guards, "eq")
-						} else {
-							guards = append(guards, "ne")
-						}
-					}
-				case token.LSS:
-					if f.Pos && !strings.HasPrefix(desc(bo.X), "?") && !strings.HasPrefix(desc(bo.Y), "?") {
-						guards = append(guards, desc(bo.X)+"<"+desc(bo.Y))
-					}
-				}
-			}
-			sort.Strings(guards)
-			interior = append(interior, desc(st.Val)+" when "+strings.Join(guards, " ∧ "))
+			interior = append(interior, st)
 		}
 	}
 	r.Check(borderCol, "DP", ln, "column border", c.pos(lv.Pos()), "initialised", "dists[i][0] is never initialised")
 	r.Check(borderRow, "DP", ln, "row border", c.pos(lv.Pos()), "initialised", "dists[0][j] is never initialised")
-	sort.Strings(interior)
-	want := []string{
-		"cell(i+0,j+0) when eq",
-		"cell(i+0,j+0)+1 when ne",
-		"cell(i+0,j+1)+1 when cell(i+0,j+1)<cell(i+1,j+1) ∧ ne",
-		"cell(i+1,j+0)+1 when cell(i+1,j+0)<cell(i+1,j+1) ∧ ne",
+	// interior recurrence: the content of cell (i+1, j+1) after one trip around the inner loop, in gated normal form
+	if len(interior) == 0 {
+		r.Fail("DP", ln, "interior recurrence", c.pos(lv.Pos()), "no store to cell (i+1, j+1) found")
+		return
 	}
-	got := strings.Join(interior, " ; ")
-	r.Check(got == strings.Join(want, " ; "), "DP", ln, "interior recurrence", c.pos(lv.Pos()), "cell(i+1,j+1) ← diagonal on equal characters; else diagonal+1, then left+1 / up+1 when smaller: "+got, "interior cell updates are {"+got+"}, expected {"+strings.Join(want, " ; ")+"}")
+	lvLoops := c.loopsDeep(lv)
+	inner := innermost(lvLoops, interior[0].Block())
+	for _, st := range interior {
+		if innermost(lvLoops, st.Block()) != inner {
+			inner = nil
+		}
+	}
+	if inner == nil {
+		r.Fail("DP", ln, "interior recurrence", c.ipos(interior[0]), "the interior cell is not written inside one innermost loop")
+		return
+	}
+	g := &gamma{c: c, loop: inner}
+	g.isCell = func(addr ssa.Value) bool {
+		row, col, ok := cellOf(addr)
+		if !ok {
+			return false
+		}
+		di, ok1 := rel(row, iVal)
+		dj, ok2 := rel(col, jVal)
+		return ok1 && ok2 && di == 1 && dj == 1
+	}
+	g.leaf = func(v ssa.Value) string { return desc(v) }
+	g.eqLeaf = func(a, b ssa.Value) string {
+		ta, tb := c.term(a), c.term(b)
+		if strings.HasPrefix(ta, "idx("+S) && strings.HasPrefix(tb, "idx("+T) || strings.HasPrefix(ta, "idx("+T) && strings.HasPrefix(tb, "idx("+S) {
+			return "eq"
+		}
+		return ""
+	}
+	got := g.final().String()
+	want := "ite(eq, cell(i+0,j+0), min(cell(i+0,j+0)+1, cell(i+0,j+1)+1, cell(i+1,j+0)+1))"
+	r.Check(got == want && g.bad == "", "DP", ln, "interior recurrence", c.pos(lv.Pos()), "after each inner iteration cell(i+1,j+1) = diagonal on equal characters, else 1 + min(diagonal, left, up): "+got, "after an inner iteration cell(i+1,j+1) = "+got+", expected "+want)
 }
